@@ -280,7 +280,13 @@ impl World {
         n3z.add("deleg.n3.sec.", ns("ns.deleg.n3.sec."));
         let mut dlg3 = Zone::new("deleg.n3.sec.", false);
         dlg3.add("deleg.n3.sec.", soa("deleg.n3.sec.")); dlg3.add("deleg.n3.sec.", ns("ns.deleg.n3.sec.")); dlg3.add("www.deleg.n3.sec.", a([198, 51, 100, 4]));
-        let mut zones = vec![root, sec, zone, other, ins, uns, dlg, n3z, dlg3];
+        // two insecure delegations below the empty non-terminal a.zone.sec.
+        zone.add("sub.a.zone.sec.", ns("ns.sub.a.zone.sec.")); zone.add("sub2.a.zone.sec.", ns("ns.sub2.a.zone.sec."));
+        let mut sub1 = Zone::new("sub.a.zone.sec.", false);
+        sub1.add("sub.a.zone.sec.", soa("sub.a.zone.sec.")); sub1.add("sub.a.zone.sec.", ns("ns.sub.a.zone.sec.")); sub1.add("www.sub.a.zone.sec.", a([198, 51, 100, 5]));
+        let mut sub2 = Zone::new("sub2.a.zone.sec.", false);
+        sub2.add("sub2.a.zone.sec.", soa("sub2.a.zone.sec.")); sub2.add("sub2.a.zone.sec.", ns("ns.sub2.a.zone.sec.")); sub2.add("www.sub2.a.zone.sec.", a([198, 51, 100, 6]));
+        let mut zones = vec![root, sec, zone, other, ins, uns, dlg, n3z, dlg3, sub1, sub2];
         for z in zones.iter_mut() { z.finish(); }
         World { zones, other_key_zone: 3 }
     }
@@ -847,6 +853,82 @@ fn main() {
     // the groups as a correct signature validation must see them.
     let world = Arc::new(World::new());
     let quiet = Script { attack: Attack::None, on_query: 0, pick: 0, raw: vec![] };
+    let w = world.clone();
+    // ---------------- (5) targeted adversaries against the orchestration
+    let set_of = |x: (Vec<Rec>, Option<Rec>)| RRset { rrs: x.0, sigs: x.1.into_iter().collect() };
+    let reown = |rr: &Rec, o: &N| Record::new(o.clone(), rr.class(), rr.ttl(), rr.data().clone());
+    let verdict = |out: &mut Out, vc: &ValidationContext<Mock>, c: &str, qn: &N, qt: Rtype, resp: &Resp| -> Option<ValidationState> {
+        out.begin(c);
+        let mut m = build_msg(11, qn, qt, resp);
+        match catch_mut(|| rt.block_on(async { vc.validate_msg(&mut m).await })) {
+            Err(p) => { out.check(false, "panic_validator", c, &p); None }
+            Ok(Err(_)) => None,
+            Ok(Ok((s, _))) => Some(s),
+        }
+    };
+    let mut expiry_phase2: Option<(ValidationContext<Mock>, N, Resp, u32, u32, String)> = None;
+    struct Roll { what: &'static str, anchor: bool, vc: ValidationContext<Mock>, mock: Mock, apex: N, owner: N, old: ZKey, newk: ZKey, line: String, must_expire: bool, phase1_ok: bool, t1: u32 }
+    let mut rolls_phase2: Vec<Roll> = vec![];
+    // (5a') a signature that expires between two validations on ONE context: the second verdict must not rest on
+    // the first (the signature cache must not outlive the validity period).  Deterministic: the second validation
+    // starts only after the clock has passed the expiration; if the first one came too late the run is skipped and counted.
+    if !ar.extra.iter().any(|x| x == "--no-wait") {
+        let z = &w.zones[2];
+        let kz = z.key.as_ref().unwrap();
+        let vc = ValidationContext::new(w.anchors(), Mock::new(w.clone(), quiet.clone()));
+        // warm the chain so that the short-lived signature is the only thing validated late
+        let warm = nm("www.zone.sec.");
+        let _ = verdict(&mut out, &vc, "e2e expiry warm-up", &warm, Rtype::A, &Resp { rcode: Rcode::NOERROR, answer: vec![set_of(z.get(&warm, Rtype::A).unwrap())], authority: vec![] });
+        let owner = nm("shortlived.zone.sec.");
+        let rrs = vec![rec(&owner, 300, a([192, 0, 2, 66]))];
+        let t0 = now_u32();
+        let exp = t0 + 2;
+        let sig = sign_with(kz, &kz.zone, &rrs, 3, t0 - 600, exp);
+        let resp = Resp { rcode: Rcode::NOERROR, answer: vec![RRset { rrs, sigs: vec![sig] }], authority: vec![] };
+        // key rollover runs (phase 1 here, phase 2 after the wait below): a zone's DNSKEY RRset {real key, old key} is
+        // validated, the old key signs data; then the old key is withdrawn.  Once the signature / TTL that justified the
+        // cached node has run out, data signed by the withdrawn key must not validate any more.
+        for (what, zi, short_sig, short_ttl, on_ds) in [("anchor DNSKEY signature expires", 0usize, true, false, false), ("anchor DNSKEY TTL runs out", 0, false, true, false), ("anchor control", 0, false, false, false),
+                                                        ("child DNSKEY signature expires", 2, true, false, false), ("child DNSKEY TTL runs out", 2, false, true, false),
+                                                        ("child DS signature expires", 2, true, false, true), ("child DS TTL runs out", 2, false, true, true), ("child control", 2, false, false, false)] {
+            idx += 1; if !out.wants(idx) { continue; }
+            let zz = &w.zones[zi];
+            let real = zz.key.as_ref().unwrap();
+            let old = gen_key_flags(&zz.apex, 256); let newk = gen_key_flags(&zz.apex, 256);
+            let dkr = |k: &ZKey, ttl: u32| rec(&k.zone, ttl, ZD::Dnskey(k.dnskey.clone()));
+            let t1 = now_u32();
+            let long_exp = t1 + 86400;
+            let (kttl, kexp) = if on_ds { (3600u32, long_exp) } else { (if short_ttl { 2 } else { 3600 }, if short_sig { t1 + 2 } else { long_exp }) };
+            let keyset = vec![dkr(real, kttl), dkr(&old, kttl)];
+            let ksig = sign_with(real, &real.zone, &keyset, nlabels(&zz.apex), t1 - 600, kexp);
+            let mut raws = vec![(zz.apex.clone(), Rtype::DNSKEY.to_int(), build_msg(9, &zz.apex, Rtype::DNSKEY, &Resp { rcode: Rcode::NOERROR, answer: vec![RRset { rrs: keyset, sigs: vec![ksig] }], authority: vec![] }))];
+            let (dttl, dexp) = if on_ds { (if short_ttl { 2u32 } else { 300 }, if short_sig { t1 + 2 } else { long_exp }) } else { (300, long_exp) };
+            if zi != 0 {
+                let pk = w.zones[1].key.as_ref().unwrap();
+                let dsr = vec![rec(&zz.apex, dttl, ds_of(real))];
+                let dsig = sign_with(pk, &pk.zone, &dsr, nlabels(&zz.apex), t1 - 600, dexp);
+                raws.push((zz.apex.clone(), Rtype::DS.to_int(), build_msg(9, &zz.apex, Rtype::DS, &Resp { rcode: Rcode::NOERROR, answer: vec![RRset { rrs: dsr, sigs: vec![dsig] }], authority: vec![] })));
+            }
+            let mock = Mock::new(w.clone(), Script { attack: Attack::None, on_query: 0, pick: 0, raw: raws });
+            let vc = ValidationContext::new(w.anchors(), mock.clone());
+            let owner = if zi == 0 { nm("ns.") } else { nm("roll.zone.sec.") };
+            let d1 = vec![rec(&owner, 300, a([10, 0, 0, 1]))];
+            let c = format!("e2e rollover ({}): {} A signed by the old key, first validation", what, owner);
+            let s1 = verdict(&mut out, &vc, &c, &owner, Rtype::A, &Resp { rcode: Rcode::NOERROR, answer: vec![RRset { sigs: vec![sign(&old, &d1)], rrs: d1 }], authority: vec![] });
+            let phase1_ok = s1 == Some(ValidationState::Secure) && now_u32() <= t1 + 1;
+            let line = if zi == 0 { format!("anchorttl {} N2 604800 {} {} {} {}", t1, kttl, kttl, kttl, kexp) }
+                       else { format!("childttl {} N2 290 {} {} {} {} {} {} {} {}", t1, dttl, dttl, dttl, dexp, kttl, kttl, kttl, kexp) };
+            rolls_phase2.push(Roll { what, anchor: zi == 0, vc, mock, apex: zz.apex.clone(), owner, old, newk, line, must_expire: short_sig || short_ttl, phase1_ok, t1 });
+        }
+        idx += 1;
+        if out.wants(idx) {
+            let c = format!("e2e expiry shortlived.zone.sec. A, RRSIG expiring at {}: validated at {} and again after the expiration on the same context", exp, t0);
+            out.oracle_case(&c, true, "e2e_expiry");
+            let s1 = verdict(&mut out, &vc, &c, &owner, Rtype::A, &resp);
+            if now_u32() > exp || s1 != Some(ValidationState::Secure) { out.count("expiry_case_skipped_first_validation_late"); }
+            else { expiry_phase2 = Some((vc, owner, resp, t0, exp, c)); }
+        }
+    }
     {
         let w = world.clone();
         let vc = ValidationContext::new(w.anchors(), Mock::new(w.clone(), quiet.clone()));
@@ -1542,6 +1624,51 @@ fn main() {
         }
     }
 
+    // ---------------- (3g) grouping the records of a section into RRsets with their RRSIGs (GroupSet::add)
+    {
+        let owners: Vec<N> = ["a.ex.", "A.ex.", "b.ex.", "a.b.ex."].iter().map(|s| nm(s)).collect();
+        for _ in 0..(1200 * scale) {
+            let n = 2 + r.below(8) as usize;
+            let mut recs: Vec<(Record<N, ZD>, String)> = vec![];
+            for _ in 0..n {
+                let o = r.pick(&owners).clone();
+                let class = if r.chance(1, 6) { Class::CH } else { Class::IN };
+                let id = r.below(3) as u8;
+                let (d, is_sig, t): (ZD, bool, Rtype) = match r.below(7) {
+                    0 | 1 => (a([192, 0, 2, id]), false, Rtype::A),
+                    2 => (ZD::Txt(Txt::build_from_slice(&[b'a' + id]).unwrap()), false, Rtype::TXT),
+                    3 => (ns(&format!("n{}.ex.", id)), false, Rtype::NS),
+                    x => { let cov = match x { 4 => Rtype::A, 5 => Rtype::TXT, _ => Rtype::NS };
+                           (ZD::Rrsig(Rrsig::<Bytes, N>::new(cov, SecurityAlgorithm::ECDSAP256SHA256, 2, Ttl::from_secs(300), Timestamp::from(2), Timestamp::from(1), id as u16, nm("ex."), Bytes::from(vec![id; 4])).unwrap()), true, cov) }
+                };
+                let w0 = format!("{} {} {} {} {}", nhex(&o), class.to_int(), is_sig as u8, t.to_int(), id);
+                recs.push((Record::new(o, class, Ttl::from_secs(300 + r.below(3) as u32), d), w0));
+            }
+            idx += 1; if !out.wants(idx) { continue; }
+            let c = format!("groups {}", recs.iter().map(|x| x.1.clone()).collect::<Vec<_>>().join(" "));
+            out.begin(&c);
+            let mut mb = MessageBuilder::new_vec().question(); mb.push((&nm("q."), Rtype::A)).unwrap();
+            let mut an = mb.answer();
+            for (rr, _) in &recs { an.push(rr.clone()).unwrap(); }
+            let msg = Message::from_octets(Bytes::from(an.finish())).unwrap();
+            let res = catch_mut(|| { let mut gs = vh::GroupSet::new(); for rr in msg.answer().unwrap() { let _ = gs.add(rr.unwrap()); } gs });
+            match res {
+                Err(p) => { out.case(&c, "Panic", true, "group_set"); out.check(false, "panic_validator", &c, &p); }
+                Ok(mut gs) => {
+                    let groups: Vec<vh::Group> = gs.iter().cloned().collect();
+                    let obs: Vec<String> = groups.iter().map(|g| format!("{}/{}/{}/{}/{}", nhex(&g.owner()), g.class().to_int(), g.rtype().to_int(), g.rr_set().len(), g.sig_set_len())).collect();
+                    out.case(&c, &obs.join(";"), groups.len() < recs.len(), "group_set");
+                    for g in &groups {
+                        let mut g2 = g.clone();
+                        let rrs = g.rr_set();
+                        let bad = g2.sig_iter().any(|sg| !rfc_eq(sg.owner(), &g.owner()) || sg.class() != g.class() || (!rrs.is_empty() && sg.data().type_covered() != g.rtype()));
+                        out.check(!bad, "rrsig_attached_to_other_rrset", &c, &format!("group {} {}", g.owner(), g.rtype()));
+                    }
+                }
+            }
+        }
+    }
+
     // ---------------- (3b) positive replies: verdict as a function of the answer groups
     {
         let w = world.clone();
@@ -1587,8 +1714,12 @@ fn main() {
                 let sibling = { let mut p2 = pre.clone(); p2[0] = if p2[0] == b"g".to_vec() { b"h".to_vec() } else { b"g".to_vec() }; cat(&p2, &dtg) };
                 let ctarget = match r.below(8) { 0 | 1 | 2 => exact.clone(), 3 | 4 => sibling.clone(), 5 => cat(&vec![b"x".to_vec()], &exact), 6 => dtg.clone(), _ => r.pick(&all_names).clone() };
                 let mut parts: Vec<(RRset, &'static str, bool)> = vec![];
-                if r.chance(9, 10) { parts.push(finish(&mut r, vec![rec(&dow, 300, ZD::Dname(Dname::new(dtg.clone())))], false)); }
-                if r.chance(5, 6) { let unsigned = r.chance(3, 4); parts.push(finish(&mut r, vec![rec(&qn, 300, ZD::Cname(Cname::new(ctarget)))], unsigned)); }
+                // RFC 6672 2.4: DNAME is a singleton type; a DNAME RRset with two records is not followed (the code skips
+                // RRsets with more than one record), generated only together with a signed or absent CNAME
+                let two = r.chance(1, 10);
+                if two { parts.push(finish(&mut r, vec![rec(&dow, 300, ZD::Dname(Dname::new(dtg.clone()))), rec(&dow, 300, ZD::Dname(Dname::new(nm("other.zone.sec."))))], false)); }
+                else if r.chance(9, 10) { parts.push(finish(&mut r, vec![rec(&dow, 300, ZD::Dname(Dname::new(dtg.clone())))], false)); }
+                if r.chance(5, 6) { let unsigned = !two && r.chance(3, 4); parts.push(finish(&mut r, vec![rec(&qn, 300, ZD::Cname(Cname::new(ctarget)))], unsigned)); }
                 if r.chance(5, 6) { parts.push(finish(&mut r, vec![rec(&exact, 300, a([192, 0, 2, 71]))], false)); }
                 if r.chance(1, 2) { parts.push(finish(&mut r, vec![rec(&sibling, 300, a([192, 0, 2, 72]))], false)); }
                 for i in (1..parts.len()).rev() { let j = r.below(i as u64 + 1) as usize; parts.swap(i, j); }
@@ -1659,6 +1790,7 @@ fn main() {
         ("www.deleg.zone.sec.", Rtype::A), ("nope.deleg.zone.sec.", Rtype::A), ("ins.", Rtype::DS), ("WWW.Zone.SEC.", Rtype::A),
         ("www.n3.sec.", Rtype::A), ("www.n3.sec.", Rtype::TXT), ("nope.n3.sec.", Rtype::A), ("x.y.nope.n3.sec.", Rtype::A), ("a.n3.sec.", Rtype::A),
         ("x.wild.n3.sec.", Rtype::A), ("x.wild.n3.sec.", Rtype::TXT), ("alias.n3.sec.", Rtype::A), ("n3.sec.", Rtype::DS), ("c.a.n3.sec.", Rtype::A),
+        ("www.sub.a.zone.sec.", Rtype::A), ("www.sub2.a.zone.sec.", Rtype::A), ("sub.a.zone.sec.", Rtype::DS),
         ("www.deleg.n3.sec.", Rtype::A), ("deleg.n3.sec.", Rtype::DS), ("nope.deleg.n3.sec.", Rtype::A), ("www.q.n3.sec.", Rtype::A), ("x.y.z.n3.sec.", Rtype::A),
     ];
     let run_case = |out: &mut Out, label: &str, qn: &N, qt: Rtype, sc: Script, use_conn: bool, do_flag: bool| -> (Option<Result<(ValidationState, u32), String>>, Mock, Truth, Resp) {
@@ -1816,18 +1948,6 @@ fn main() {
             }
         }
     }
-    // ---------------- (5) targeted adversaries against the orchestration
-    let set_of = |x: (Vec<Rec>, Option<Rec>)| RRset { rrs: x.0, sigs: x.1.into_iter().collect() };
-    let reown = |rr: &Rec, o: &N| Record::new(o.clone(), rr.class(), rr.ttl(), rr.data().clone());
-    let verdict = |out: &mut Out, vc: &ValidationContext<Mock>, c: &str, qn: &N, qt: Rtype, resp: &Resp| -> Option<ValidationState> {
-        out.begin(c);
-        let mut m = build_msg(11, qn, qt, resp);
-        match catch_mut(|| rt.block_on(async { vc.validate_msg(&mut m).await })) {
-            Err(p) => { out.check(false, "panic_validator", c, &p); None }
-            Ok(Err(_)) => None,
-            Ok(Ok((s, _))) => Some(s),
-        }
-    };
     // (5a) replay on ONE context: a genuine signed answer is validated first, then its RDATA and
     // RRSIG are served under another owner name / the RRSIG with other data; then the genuine one again
     for round in 0..(3 * scale) {
@@ -1874,111 +1994,6 @@ fn main() {
             out.check(s == Some(ValidationState::Secure), "honest_not_secure", &c, &format!("{:?}", s.map(st)));
         }
     }
-    struct Roll { what: &'static str, anchor: bool, vc: ValidationContext<Mock>, mock: Mock, apex: N, owner: N, old: ZKey, newk: ZKey, line: String, must_expire: bool, phase1_ok: bool, t1: u32 }
-    let mut rolls_phase2: Vec<Roll> = vec![];
-    // (5a') a signature that expires between two validations on ONE context: the second verdict must not rest on
-    // the first (the signature cache must not outlive the validity period).  Deterministic: the second validation
-    // starts only after the clock has passed the expiration; if the first one came too late the run is skipped and counted.
-    if !ar.extra.iter().any(|x| x == "--no-wait") {
-        let z = &w.zones[2];
-        let kz = z.key.as_ref().unwrap();
-        let vc = ValidationContext::new(w.anchors(), Mock::new(w.clone(), quiet.clone()));
-        // warm the chain so that the short-lived signature is the only thing validated late
-        let warm = nm("www.zone.sec.");
-        let _ = verdict(&mut out, &vc, "e2e expiry warm-up", &warm, Rtype::A, &Resp { rcode: Rcode::NOERROR, answer: vec![set_of(z.get(&warm, Rtype::A).unwrap())], authority: vec![] });
-        let owner = nm("shortlived.zone.sec.");
-        let rrs = vec![rec(&owner, 300, a([192, 0, 2, 66]))];
-        let t0 = now_u32();
-        let exp = t0 + 2;
-        let sig = sign_with(kz, &kz.zone, &rrs, 3, t0 - 600, exp);
-        let resp = Resp { rcode: Rcode::NOERROR, answer: vec![RRset { rrs, sigs: vec![sig] }], authority: vec![] };
-        // key rollover runs (phase 1 here, phase 2 after the wait below): a zone's DNSKEY RRset {real key, old key} is
-        // validated, the old key signs data; then the old key is withdrawn.  Once the signature / TTL that justified the
-        // cached node has run out, data signed by the withdrawn key must not validate any more.
-        for (what, zi, short_sig, short_ttl, on_ds) in [("anchor DNSKEY signature expires", 0usize, true, false, false), ("anchor DNSKEY TTL runs out", 0, false, true, false), ("anchor control", 0, false, false, false),
-                                                        ("child DNSKEY signature expires", 2, true, false, false), ("child DNSKEY TTL runs out", 2, false, true, false),
-                                                        ("child DS signature expires", 2, true, false, true), ("child DS TTL runs out", 2, false, true, true), ("child control", 2, false, false, false)] {
-            idx += 1; if !out.wants(idx) { continue; }
-            let zz = &w.zones[zi];
-            let real = zz.key.as_ref().unwrap();
-            let old = gen_key_flags(&zz.apex, 256); let newk = gen_key_flags(&zz.apex, 256);
-            let dkr = |k: &ZKey, ttl: u32| rec(&k.zone, ttl, ZD::Dnskey(k.dnskey.clone()));
-            let t1 = now_u32();
-            let long_exp = t1 + 86400;
-            let (kttl, kexp) = if on_ds { (3600u32, long_exp) } else { (if short_ttl { 2 } else { 3600 }, if short_sig { t1 + 2 } else { long_exp }) };
-            let keyset = vec![dkr(real, kttl), dkr(&old, kttl)];
-            let ksig = sign_with(real, &real.zone, &keyset, nlabels(&zz.apex), t1 - 600, kexp);
-            let mut raws = vec![(zz.apex.clone(), Rtype::DNSKEY.to_int(), build_msg(9, &zz.apex, Rtype::DNSKEY, &Resp { rcode: Rcode::NOERROR, answer: vec![RRset { rrs: keyset, sigs: vec![ksig] }], authority: vec![] }))];
-            let (dttl, dexp) = if on_ds { (if short_ttl { 2u32 } else { 300 }, if short_sig { t1 + 2 } else { long_exp }) } else { (300, long_exp) };
-            if zi != 0 {
-                let pk = w.zones[1].key.as_ref().unwrap();
-                let dsr = vec![rec(&zz.apex, dttl, ds_of(real))];
-                let dsig = sign_with(pk, &pk.zone, &dsr, nlabels(&zz.apex), t1 - 600, dexp);
-                raws.push((zz.apex.clone(), Rtype::DS.to_int(), build_msg(9, &zz.apex, Rtype::DS, &Resp { rcode: Rcode::NOERROR, answer: vec![RRset { rrs: dsr, sigs: vec![dsig] }], authority: vec![] })));
-            }
-            let mock = Mock::new(w.clone(), Script { attack: Attack::None, on_query: 0, pick: 0, raw: raws });
-            let vc = ValidationContext::new(w.anchors(), mock.clone());
-            let owner = if zi == 0 { nm("ns.") } else { nm("roll.zone.sec.") };
-            let d1 = vec![rec(&owner, 300, a([10, 0, 0, 1]))];
-            let c = format!("e2e rollover ({}): {} A signed by the old key, first validation", what, owner);
-            let s1 = verdict(&mut out, &vc, &c, &owner, Rtype::A, &Resp { rcode: Rcode::NOERROR, answer: vec![RRset { sigs: vec![sign(&old, &d1)], rrs: d1 }], authority: vec![] });
-            let phase1_ok = s1 == Some(ValidationState::Secure) && now_u32() <= t1 + 1;
-            let line = if zi == 0 { format!("anchorttl {} N2 604800 {} {} {} {}", t1, kttl, kttl, kttl, kexp) }
-                       else { format!("childttl {} N2 290 {} {} {} {} {} {} {} {}", t1, dttl, dttl, dttl, dexp, kttl, kttl, kttl, kexp) };
-            rolls_phase2.push(Roll { what, anchor: zi == 0, vc, mock, apex: zz.apex.clone(), owner, old, newk, line, must_expire: short_sig || short_ttl, phase1_ok, t1 });
-        }
-        idx += 1;
-        if out.wants(idx) {
-            let c = format!("e2e expiry shortlived.zone.sec. A, RRSIG expiring at {}: validated at {} and again after the expiration on the same context", exp, t0);
-            out.oracle_case(&c, true, "e2e_expiry");
-            let s1 = verdict(&mut out, &vc, &c, &owner, Rtype::A, &resp);
-            if now_u32() > exp || s1 != Some(ValidationState::Secure) { out.count("expiry_case_skipped_first_validation_late"); }
-            else {
-                while now_u32() <= exp + 1 { std::thread::sleep(std::time::Duration::from_millis(200)); out.begin(&c); }
-                out.begin(&c);
-                let t2 = now_u32();
-                let line = format!("reval {} {} {} {}", t0, t2, t0 - 600, exp);
-                let mut m = build_msg(11, &owner, Rtype::A, &resp);
-                match catch_mut(|| rt.block_on(async { vc.validate_msg(&mut m).await })) {
-                    Err(p) => { out.case(&line, "Panic", true, "revalidate"); out.check(false, if p.contains("subtract with overflow") { "ttl_for_sig_underflow_panic" } else { "panic_validator" }, &c, &p) }
-                    Ok(Err(_)) => {}
-                    Ok(Ok((s, _))) => {
-                        out.case(&line, if s == ValidationState::Secure { "true" } else { "false" }, true, "revalidate");
-                        out.check(s != ValidationState::Secure, "secure_with_expired_signature_cached", &c, "a signature validated before its expiration is still accepted after it (signature cache)")
-                    }
-                }
-            }
-        }
-    }
-    // phase 2 of the rollover runs
-    if !ar.extra.iter().any(|x| x == "--no-wait") {
-        for rl in rolls_phase2.drain(..) {
-            let zi = if rl.anchor { 0 } else { 2 };
-            let zz = &w.zones[zi];
-            let real = zz.key.as_ref().unwrap();
-            if !rl.phase1_ok { out.count("rollover_case_skipped_first_validation_late"); continue; }
-            while now_u32() <= rl.t1 + 4 { std::thread::sleep(std::time::Duration::from_millis(200)); out.begin("rollover wait"); }
-            // the old key is withdrawn: the zone now publishes {real key, new key}, everything signed for a day
-            let keyset = vec![rec(&rl.apex, 3600, ZD::Dnskey(real.dnskey.clone())), rec(&rl.apex, 3600, ZD::Dnskey(rl.newk.dnskey.clone()))];
-            let ksig = sign(real, &keyset);
-            rl.mock.0.script.lock().unwrap().raw = vec![(rl.apex.clone(), Rtype::DNSKEY.to_int(), build_msg(9, &rl.apex, Rtype::DNSKEY, &Resp { rcode: Rcode::NOERROR, answer: vec![RRset { rrs: keyset, sigs: vec![ksig] }], authority: vec![] }))];
-            let t2 = now_u32();
-            let d2 = vec![rec(&rl.owner, 300, a([10, 0, 0, 2]))];
-            let c = format!("e2e rollover ({}): {} A signed by the withdrawn key at {} (DNSKEY RRset validated at {})", rl.what, rl.owner, t2, rl.t1);
-            out.oracle_case(&c, true, "e2e_rollover");
-            let s2 = verdict(&mut out, &rl.vc, &c, &rl.owner, Rtype::A, &Resp { rcode: Rcode::NOERROR, answer: vec![RRset { sigs: vec![sign(&rl.old, &d2)], rrs: d2 }], authority: vec![] });
-            let Some(s2) = s2 else { continue; };
-            out.case(&rl.line.replace("N2", &t2.to_string()), if s2 == ValidationState::Secure { "true" } else { "false" }, true, "node_validity");
-            if rl.must_expire {
-                out.check(s2 != ValidationState::Secure, "secure_with_withdrawn_key", &c, "the cached node outlived the signature / TTL that justified it: a withdrawn key still validates");
-                let d3 = vec![rec(&rl.owner, 300, a([10, 0, 0, 3]))];
-                let c3 = format!("e2e rollover ({}): {} A signed by the new key after the rollover", rl.what, rl.owner);
-                // the failed attempt above may have left a bogus node behind for max_bogus_validity: use the new key on a fresh name lookup only if the node is gone
-                let s3 = verdict(&mut out, &ValidationContext::new(w.anchors(), rl.mock.clone()), &c3, &rl.owner, Rtype::A, &Resp { rcode: Rcode::NOERROR, answer: vec![RRset { sigs: vec![sign(&rl.newk, &d3)], rrs: d3 }], authority: vec![] });
-                out.check(s3 == Some(ValidationState::Secure), "honest_not_secure", &c3, &format!("{:?}", s3.map(st)));
-            }
-        }
-    }
     // (5a'') malformed replies: truncated, bit-flipped, with inflated section counts - for the user's reply and for the
     // DS / DNSKEY lookups (request_as_groups).  No verdict is asserted beyond: no panic, no hang, never an error-free
     // secure verdict for a reply whose answer section no longer parses.
@@ -2019,6 +2034,72 @@ fn main() {
                     out.check(true, "panic_validator", &c, "");
                     out.check(!(s == ValidationState::Secure && !user_ok), "secure_without_chain", &c, "secure verdict for a reply whose records do not parse");
                 }
+            }
+        }
+    }
+    // (5a-seq) several honest queries in sequence on ONE context, warming different parts of the chain first:
+    // every verdict must be the one a fresh context gives (the node cache must not change verdicts)
+    {
+        let seqs: Vec<Vec<(&str, Rtype)>> = vec![
+            vec![("www.sub.a.zone.sec.", Rtype::A), ("www.sub2.a.zone.sec.", Rtype::A), ("b.a.zone.sec.", Rtype::A)],
+            vec![("b.a.zone.sec.", Rtype::A), ("www.sub2.a.zone.sec.", Rtype::A), ("www.sub.a.zone.sec.", Rtype::A), ("www.zone.sec.", Rtype::A)],
+            vec![("www.zone.sec.", Rtype::A), ("www.deleg.zone.sec.", Rtype::A), ("nope.deleg.zone.sec.", Rtype::A), ("www.sub.a.zone.sec.", Rtype::A), ("www.sub2.a.zone.sec.", Rtype::A)],
+            vec![("www.ins.", Rtype::A), ("nope.ins.", Rtype::A), ("www.unsigned.sec.", Rtype::A), ("www.other.sec.", Rtype::A), ("www.n3.sec.", Rtype::A), ("www.deleg.n3.sec.", Rtype::A), ("nope.deleg.n3.sec.", Rtype::A)],
+            vec![("sec.", Rtype::NS), ("www.sub2.a.zone.sec.", Rtype::A), ("zone.sec.", Rtype::SOA), ("www.sub.a.zone.sec.", Rtype::A), ("x.wild.zone.sec.", Rtype::A)],
+        ];
+        for (si, seq) in seqs.iter().enumerate() {
+            let mock = Mock::new(w.clone(), quiet.clone());
+            let vc = ValidationContext::new(w.anchors(), mock.clone());
+            for (k, (qs, qt)) in seq.iter().enumerate() {
+                let qn = nm(qs);
+                idx += 1; if !out.wants(idx) { continue; }
+                let (hr, _) = honest(&w, &qn, *qt, 0);
+                let c = format!("e2e sequence {} step {}: {} {} on a context that already answered {:?}", si, k, qn, qt, &seq[..k]);
+                out.oracle_case(&c, true, "e2e_sequence");
+                let s = verdict(&mut out, &vc, &c, &qn, *qt, &hr);
+                let fresh = verdict(&mut out, &ValidationContext::new(w.anchors(), Mock::new(w.clone(), quiet.clone())), &c, &qn, *qt, &hr);
+                let signed = w.zone_for(&qn, *qt).key.is_some();
+                out.check(s == fresh, if signed { "honest_not_secure" } else { "cached_intermediate_node_as_signer" }, &c, &format!("warm context says {:?}, a fresh one {:?}", s.map(st), fresh.map(st)));
+            }
+        }
+    }
+    // (5a-node) which node answers for a name: sequences of unsigned one-RRset replies (each makes exactly one get_node call
+    // for the owner name) on one context; observed per step: the DS lookups issued (= the child nodes created) and the verdict
+    {
+        let pool: Vec<&str> = vec!["www.zone.sec.", "b.a.zone.sec.", "q.a.zone.sec.", "www.sub.a.zone.sec.", "www.sub2.a.zone.sec.", "x.y.zone.sec.", "www.deleg.zone.sec.",
+            "zone.sec.", "sec.", "www.n3.sec.", "a.n3.sec.", "www.ins.", "x.www.zone.sec.", "b.a.n3.sec.", "www.deleg.n3.sec.", "a.zone.sec.", "nope.sec.", "x.b.a.zone.sec."];
+        // classification of every name that may get a node: from the zones as built
+        let classify = |n: &N| -> &'static str {
+            if let Some(z) = w.zones.iter().find(|z| rfc_eq(&z.apex, n)) { return if z.key.is_some() { "S" } else { "I" }; }
+            let z = w.zone_for(n, Rtype::A);
+            if z.key.is_none() { "I" } else if z.exists(n) { "M" } else { "B" }
+        };
+        let mut table: Vec<String> = vec![];
+        for pn in &pool { let l = labels_of(&nm(pn)); for k in 0..l.len() { let sfx = name_from_labels(&l[k..]).unwrap(); let e = format!("{}:{}", nhex(&sfx), classify(&sfx)); if !table.contains(&e) { table.push(e); } } }
+        let tblw = table.join(",");
+        for _ in 0..(60 * scale) {
+            let mock = Mock::new(w.clone(), quiet.clone());
+            let vc = ValidationContext::new(w.anchors(), mock.clone());
+            let len = 2 + r.below(5) as usize;
+            let mut steps: Vec<String> = vec![];
+            for _ in 0..len {
+                let qn = nm(*r.pick(&pool[..]));
+                steps.push(nhex(&qn));
+                idx += 1; if !out.wants(idx) { continue; }
+                let c = format!("getnode {} {}", tblw, steps.join(" "));
+                out.begin(&c);
+                let before = mock.0.log.lock().unwrap().len();
+                let resp = Resp { rcode: Rcode::NOERROR, answer: vec![RRset { rrs: vec![rec(&qn, 300, a([203, 0, 113, 7]))], sigs: vec![] }], authority: vec![] };
+                let s = verdict(&mut out, &vc, &c, &qn, Rtype::A, &resp);
+                let log = mock.0.log.lock().unwrap();
+                let ds: Vec<String> = log[before..].iter().filter(|e| e.ends_with("/DS")).map(|e| nhex(&nm(&format!("{}.", e.trim_end_matches("/DS").trim_end_matches('.'))))).collect();
+                drop(log);
+                let Some(s) = s else { continue; };
+                out.case(&c, &format!("{} {}", if ds.is_empty() { "-".to_string() } else { ds.join(",") }, if s == ValidationState::Insecure { "Insecure" } else { "Bogus" }), !ds.is_empty(), "get_node");
+                out.check(s != ValidationState::Secure, "secure_without_chain", &c, "unsigned data reported secure");
+                // the node cache must not change verdicts: below an insecure delegation unsigned data is insecure, whatever was asked before
+                let below_insecure = w.zone_for(&qn, Rtype::A).key.is_none();
+                out.check(!below_insecure || s == ValidationState::Insecure, "cached_intermediate_node_as_signer", &c, &format!("data below an insecure delegation reported {} on a warm context", st(s)));
             }
         }
     }
@@ -2189,6 +2270,52 @@ fn main() {
             out.oracle_case(c, true, "e2e_dnskey");
             let s = verdict(&mut out, &vc, c, &nm("ns."), Rtype::A, &resp);
             out.check(s != Some(ValidationState::Secure), "secure_dnskey_not_signed_by_ds_key", c, "answer signed by a key the trust anchor does not vouch for accepted");
+        }
+    }
+    // ---------------- phase 2 of the runs on the real clock (phase 1 ran before the other targeted adversaries: one shared wait)
+    if let Some((vc, owner, resp, t0, exp, c)) = expiry_phase2.take() {
+        let deadline = rolls_phase2.iter().map(|r| r.t1 + 4).max().unwrap_or(0).max(exp + 1);
+        while now_u32() <= deadline { std::thread::sleep(std::time::Duration::from_millis(100)); out.begin(&c); }
+        out.begin(&c);
+        let t2 = now_u32();
+        let line = format!("reval {} {} {} {}", t0, t2, t0 - 600, exp);
+        let mut m = build_msg(11, &owner, Rtype::A, &resp);
+        match catch_mut(|| rt.block_on(async { vc.validate_msg(&mut m).await })) {
+            Err(p) => { out.case(&line, "Panic", true, "revalidate"); out.check(false, if p.contains("subtract with overflow") { "ttl_for_sig_underflow_panic" } else { "panic_validator" }, &c, &p) }
+            Ok(Err(_)) => {}
+            Ok(Ok((s, _))) => {
+                out.case(&line, if s == ValidationState::Secure { "true" } else { "false" }, true, "revalidate");
+                out.check(s != ValidationState::Secure, "secure_with_expired_signature_cached", &c, "a signature validated before its expiration is still accepted after it (signature cache)")
+            }
+        }
+    }
+    // phase 2 of the rollover runs
+    if !ar.extra.iter().any(|x| x == "--no-wait") {
+        for rl in rolls_phase2.drain(..) {
+            let zi = if rl.anchor { 0 } else { 2 };
+            let zz = &w.zones[zi];
+            let real = zz.key.as_ref().unwrap();
+            if !rl.phase1_ok { out.count("rollover_case_skipped_first_validation_late"); continue; }
+            while now_u32() <= rl.t1 + 4 { std::thread::sleep(std::time::Duration::from_millis(200)); out.begin("rollover wait"); }
+            // the old key is withdrawn: the zone now publishes {real key, new key}, everything signed for a day
+            let keyset = vec![rec(&rl.apex, 3600, ZD::Dnskey(real.dnskey.clone())), rec(&rl.apex, 3600, ZD::Dnskey(rl.newk.dnskey.clone()))];
+            let ksig = sign(real, &keyset);
+            rl.mock.0.script.lock().unwrap().raw = vec![(rl.apex.clone(), Rtype::DNSKEY.to_int(), build_msg(9, &rl.apex, Rtype::DNSKEY, &Resp { rcode: Rcode::NOERROR, answer: vec![RRset { rrs: keyset, sigs: vec![ksig] }], authority: vec![] }))];
+            let t2 = now_u32();
+            let d2 = vec![rec(&rl.owner, 300, a([10, 0, 0, 2]))];
+            let c = format!("e2e rollover ({}): {} A signed by the withdrawn key at {} (DNSKEY RRset validated at {})", rl.what, rl.owner, t2, rl.t1);
+            out.oracle_case(&c, true, "e2e_rollover");
+            let s2 = verdict(&mut out, &rl.vc, &c, &rl.owner, Rtype::A, &Resp { rcode: Rcode::NOERROR, answer: vec![RRset { sigs: vec![sign(&rl.old, &d2)], rrs: d2 }], authority: vec![] });
+            let Some(s2) = s2 else { continue; };
+            out.case(&rl.line.replace("N2", &t2.to_string()), if s2 == ValidationState::Secure { "true" } else { "false" }, true, "node_validity");
+            if rl.must_expire {
+                out.check(s2 != ValidationState::Secure, "secure_with_withdrawn_key", &c, "the cached node outlived the signature / TTL that justified it: a withdrawn key still validates");
+                let d3 = vec![rec(&rl.owner, 300, a([10, 0, 0, 3]))];
+                let c3 = format!("e2e rollover ({}): {} A signed by the new key after the rollover", rl.what, rl.owner);
+                // the failed attempt above may have left a bogus node behind for max_bogus_validity: use the new key on a fresh name lookup only if the node is gone
+                let s3 = verdict(&mut out, &ValidationContext::new(w.anchors(), rl.mock.clone()), &c3, &rl.owner, Rtype::A, &Resp { rcode: Rcode::NOERROR, answer: vec![RRset { sigs: vec![sign(&rl.newk, &d3)], rrs: d3 }], authority: vec![] });
+                out.check(s3 == Some(ValidationState::Secure), "honest_not_secure", &c3, &format!("{:?}", s3.map(st)));
+            }
         }
     }
     out.finish(&[("label_to_hash_panics", format!("{}", l2h_panics)), ("adversarial_applied", format!("{}", adv_applied)), ("adversarial_applied_still_secure", format!("{}", adv_applied_secure))]);
